@@ -47,9 +47,10 @@ SPEC = dict(
          "included, is the same for all block sizes >= 1), C03_check_sound, C03_check_complete (no false alarm); for "
          "the extracted concrete model (every arm), with the order facts proved for Flocq's binary32 comparison and the "
          "layout hypotheses discharged: C03_concrete_max, C03_concrete_max_explicit (scores written out), "
-         "C03_concrete_max_c08 (the numeric hypotheses reduced to C08's main clause per position + factor sign bit "
-         "clear, via coq/disc's C08_scale_monotone_f32). The corpus holds boundary cases, the inputs on which the "
-         "deliberate mutations of Scanner::max were caught, and the witnesses of known findings F14b-c03 / F14-c03.",
+         "C03_concrete_max_c08 (the numeric hypotheses reduced to C08's main clause per position, via coq/disc's "
+         "C08_scale_monotone_f32 and the sign of the factor, clear since the repair of F14b). The corpus holds boundary "
+         "cases, the inputs on which the deliberate mutations of Scanner::max and the seeded changes were caught, the "
+         "witnesses of the repaired defect F14b (must pass) and the witness of known finding F14-c03.",
     trusted_base=c02.COMMON_TRUSTED,
     assumptions=[
         "conservative (property C08), for every bound t the scanner derives (the threshold and the score of each "
@@ -57,9 +58,9 @@ SPEC = dict(
         "of all max theorems; proved by group disc in exact arithmetic, false for binary32 on ill-conditioned "
         "matrices (C08_ieee_refuted), re-checked by the correspondence run",
         "scale_monotone, in the form score i >= thr implies scale(thr) <= scale(score i): hypothesis of the abstract "
-        "theorems; for binary32 it is a theorem whenever the sign bit of the factor is clear (coq/disc "
-        "DiscF32Mono.scale_with_f32_mono, imported by coq/scan/DiscLink.v and used in C03_concrete_max_c08); with the "
-        "sign bit set (factor -0.0, known finding F14b) it is false and max() returns None on qualifying input",
+        "theorems; for the concrete binary32 model it is a theorem (coq/disc DiscF32Mono.scale_with_f32_mono + "
+        "DiscF32Sign.div_abs_sign, imported by coq/scan/DiscLink.v: env_scale_mono) and is discharged in "
+        "C03_concrete_max / _explicit / _c08",
         "the comparisons >=, >, == of the score type form a total preorder on non-NaN values with > and == derived "
         "from >=: hypotheses of the abstract theorems, proved for Flocq's binary32 Bcompare in coq/scan/F32Order.v "
         "and discharged in C03_concrete_max",
